@@ -8,7 +8,7 @@ from pyvc import ops
 from pyvc.ops import Cases, bytes_len, const_int, norm, seg_item, seg_len
 from pyvc.state import determined_int, entails, to_bits
 from pyvc.values import (
-    CHR, EngineUnsupported, ExcValue, Fmt, HDict, HList, HMap, HObject, Items, RaiseExc, Ref,
+    CHR, EngineUnsupported, ExcValue, Fmt, HDict, HList, HMap, HObject, HSeq, hmap_from_dict, _zstr_val, Items, RaiseExc, Ref,
     SBits, SBool, SBytes, SInt, SOpaque, SPayInt, SSlice, SStr, Sym, UNDEF, View, as_sbytes,
     bool_term, fresh_name, int_term, zand, znot, zor,
 )
@@ -27,6 +27,8 @@ def call(eng, st, f, args, kwargs):
                 return len(o.items)
             if isinstance(o, HDict):
                 return len(o.d)
+            if isinstance(o, HSeq):
+                return norm(SInt(o.n))
         if isinstance(x, SStr):
             raise EngineUnsupported("len of symbolic str")
         return len(x)
@@ -224,6 +226,11 @@ def method(eng, st, recv, name, args, kwargs):
                     return Cases([(True, RaiseExc(IndexError, "pop from empty list"))])
                 st.writes.add((recv.oid, "items"))
                 return o.items.pop()
+        if isinstance(o, HSeq) and name == "append":
+            o.arr = z3.Store(o.arr, o.n, _zstr_val(args[0]))
+            o.n = z3.simplify(o.n + 1)
+            st.writes.add((recv.oid, "items"))
+            return None
         if isinstance(o, HDict):
             if name == "get":
                 return o.d.get(args[0], args[1] if len(args) > 1 else None)
@@ -372,6 +379,9 @@ def get_item(eng, st, o, i):
         if isinstance(obj, HList):
             c = i if isinstance(i, int) else determined_int(st.pc, int_term(i))
             if c is None:
+                if all(isinstance(x, (str, SOpaque)) for x in obj.items):
+                    st.heap[o.oid] = HSeq.from_list(obj.items)
+                    return get_item(eng, st, o, i)
                 raise EngineUnsupported("list index symbolic")
             try:
                 return obj.items[c]
@@ -383,6 +393,15 @@ def get_item(eng, st, o, i):
             if i in obj.d:
                 return obj.d[i]
             return Cases([(True, RaiseExc(KeyError, repr(i)))])
+        if isinstance(obj, HSeq):
+            k = int_term(i)
+            ok = z3.And(k >= 0, k < obj.n)
+            return Cases([(ok, SOpaque("str", z3.Select(obj.arr, k))), (z3.Not(ok), RaiseExc(IndexError, "list index out of range"))])
+        if isinstance(obj, HList) and isinstance(i, Sym) and determined_int(st.pc, int_term(i)) is None \
+                and all(isinstance(x, (str, SOpaque)) for x in obj.items):
+            obj = HSeq.from_list(obj.items)
+            st.heap[o.oid] = obj
+            return get_item(eng, st, o, i)
         if isinstance(obj, HMap):
             k = int_term(i)
             present = z3.Select(obj.dom, k)
@@ -603,8 +622,8 @@ def set_item(eng, st, o, i, v):
                 return Cases([(True, RaiseExc(IndexError, "list assignment index out of range"))])
             st.writes.add((o.oid, "items"))
             return None
-        if isinstance(obj, HDict) and isinstance(i, Sym) and not obj.d:
-            obj = HMap.empty()
+        if isinstance(obj, HDict) and isinstance(i, Sym) and all(isinstance(k, int) for k in obj.d):
+            obj = hmap_from_dict(obj.d)
             st.heap[o.oid] = obj
         if isinstance(obj, HDict):
             if isinstance(i, Sym):
